@@ -210,6 +210,23 @@ class IterFlow:
         self.obligations.append(Obl(rule, func, node, what))
 
     # ------------------------------------------------------------- analysis
+    @staticmethod
+    def level_param(f):
+        """the explicit level parameter of a (recursive) strategy function: the one parameter that is none of the
+        strategy arguments; -> (name, constant default or None) or None"""
+        if f.srcname in ("__init", "_get_grandchildren", "_get_children", "_abort_at_level"):
+            return None
+        extra = [p for p in f.posparams if p not in ("self", "children", "filter_", "stop", "maxlevel")]
+        if len(extra) != 1 or "children" not in f.posparams:
+            return None
+        a = f.node.args
+        pos = a.posonlyargs + a.args
+        dflt = None
+        for prm, d in zip(pos[len(pos) - len(a.defaults):], a.defaults):
+            if prm.arg == extra[0] and isinstance(d, ast.Constant) and isinstance(d.value, int) and not isinstance(d.value, bool):
+                dflt = d.value
+        return extra[0], dflt
+
     def entry_env(self, f):
         env = {}
         ps = f.posparams
@@ -217,15 +234,16 @@ class IterFlow:
         if f.srcname == "__init":
             env[ps[0]] = ("iterself",)
             return env
+        lp = self.level_param(f)
         for prm in ps:
             if prm == "children":
-                if f.srcname == "__next":
+                if lp is not None:
                     env[prm] = Seq(("s", "level", 0), checked, False)
                 elif f.srcname == "_get_grandchildren":
                     env[prm] = Seq(("s", "L", 0), checked, admitted)
                 else:
                     env[prm] = Seq(("c", 1), checked, admitted)
-            elif prm == "level":
+            elif lp is not None and prm == lp[0]:
                 env[prm] = ("int", ("s", "level", 0))
             elif prm == "maxlevel":
                 env[prm] = ("max", 0)
@@ -600,9 +618,13 @@ class IterFlow:
             return vjoin(self.ev(f, e.body, env, facts, rec, cn), self.ev(f, e.orelse, env, facts, rec, cn))
         if isinstance(e, ast.BoolOp):
             out = None
+            first = self.ev(f, e.values[0], env, facts, rec, cn)
+            if isinstance(e.op, ast.Or) and isinstance(first, tuple) and first[0] == "fn" and f.srcname == "__init":
+                # `self.filter_ or <default>`: the default stands for the same option (that it is a constant hook with
+                # the right answer is rule S4's obligation)
+                return first
             for v in e.values:
                 out = vjoin(out, self.ev(f, v, env, facts, rec, cn)) if out is not None else self.ev(f, v, env, facts, rec, cn)
-            # `self.filter_ or default`
             return out
         if isinstance(e, ast.Attribute):
             recv = self.ev(f, e.value, env, facts, rec, cn)
@@ -854,8 +876,11 @@ class IterFlow:
             return
         # level agreement
         mv = b.get("maxlevel")
-        if callee.srcname == "__next":
-            lv = b.get("level")
+        lp = self.level_param(callee)
+        if lp is not None:
+            lv = b.get(lp[0])
+            if lv is None and lp[1] is not None:
+                lv = ("int", ("c", lp[1]))
             if isinstance(lv, tuple) and lv[0] == "int" and lv[1] == s.level and s.level not in (None, "TOP"):
                 self.ok("S3", f, e, "level argument %s equals the level of the sequence passed" % lv_show(s.level))
             elif s.level is None:
